@@ -751,6 +751,7 @@ type Env struct {
 	old    *State          // entry state for old()
 	oldEnv *Env            // entry environment
 	frame  *Frame          // for Go source variables in loop invariants
+	frameFirst bool        // frame variables shadow the contract environment (loop invariants)
 	preSt  *State          // state at entry of the innermost cut loop (for pre())
 	preEnv *Env
 }
@@ -764,7 +765,7 @@ func (e *Env) lookup(n string) (Value, bool) {
 	return nil, false
 }
 func (e *Env) child() *Env {
-	return &Env{vars: map[string]Value{}, parent: e, pkg: e.pkg, old: e.old, oldEnv: e.oldEnv, frame: e.frame, preSt: e.preSt, preEnv: e.preEnv}
+	return &Env{vars: map[string]Value{}, parent: e, pkg: e.pkg, old: e.old, oldEnv: e.oldEnv, frame: e.frame, frameFirst: e.frameFirst, preSt: e.preSt, preEnv: e.preEnv}
 }
 
 func (x *Exec) resolveType(pkg *ssa.Package, name string) types.Type {
@@ -842,7 +843,9 @@ func (x *Exec) eval(st *State, env *Env, e Expr) Value {
 		if n.isInt {
 			return mkRat(n.rat, SInt)
 		}
-		return mkRat(n.rat, SReal)
+		// like Go constants in float64 context, decimal literals denote the nearest float64
+		f, _ := n.rat.Float64()
+		return mkReal(f)
 	case *EStr:
 		return &Str{s: n.s}
 	case *EIdent:
@@ -934,18 +937,33 @@ func (x *Exec) evalIdent(st *State, env *Env, name string) Value {
 	case "PI", "Pi":
 		return piTerm()
 	}
+	frameLookup := func(f *Frame) (Value, bool) {
+		if ee, ok := f.env[name]; ok {
+			if ee.addr {
+				if p, ok := ee.v.(*Ptr); ok {
+					return x.load(st, p), true
+				}
+			}
+			return ee.v, true
+		}
+		return nil, false
+	}
+	// loop invariants see the current Go variables first; postconditions see
+	// the entry values of parameters first and other locals afterwards
 	for c := env; c != nil; c = c.parent {
 		if v, ok := c.vars[name]; ok {
 			return v
 		}
-		if c.frame != nil {
-			if ee, ok := c.frame.env[name]; ok {
-				if ee.addr {
-					if p, ok := ee.v.(*Ptr); ok {
-						return x.load(st, p)
-					}
-				}
-				return ee.v
+		if c.frame != nil && c.frameFirst {
+			if v, ok := frameLookup(c.frame); ok {
+				return v
+			}
+		}
+	}
+	for c := env; c != nil; c = c.parent {
+		if c.frame != nil && !c.frameFirst {
+			if v, ok := frameLookup(c.frame); ok {
+				return v
 			}
 		}
 	}
